@@ -231,7 +231,9 @@ func (s *Sim) nontrivial() bool {
 	}
 	f := s.stats["drop"] + s.stats["dup"] + s.stats["reordered"] + s.stats["crash"] + s.stats["partition"] + s.stats["stall"] + s.stats["timer"]
 	switch s.cfg.Prop {
-	case "C02", "C07":
+	case "C07":
+		return s.stats["twin_reaction_equal"] > 0
+	case "C02":
 		return s.stats["crash"] > 0
 	case "C05":
 		return s.stats["sync_committed"] > 0
